@@ -143,6 +143,11 @@ class Parameter
         return keeper.isInitialized();
     }
 
+    bool hasSameTypeAs(const Parameter& other) const
+    {
+        return keeper.hasSameTypeAs(other.keeper);
+    }
+
     template <template <class> class F, class Q> inline bool isCondition(F<Q> cond) const
     {
         return keeper.isCondition(cond);
@@ -257,6 +262,15 @@ class ParametersSet
                 ss << *iter << " ";
 
             throw multiple_parameter_error(ss.str());
+        }
+    }
+    void checkTypes(const ParametersSet& reference) const
+    {
+        for (const auto& each : pmap)
+        {
+            ParametersMap::const_iterator it = reference.pmap.find(each.first);
+            if (it != reference.pmap.end() && !each.second.hasSameTypeAs(it->second))
+                throw wrong_parameter_type_error(each.first + " has a value of a wrong type");
         }
     }
     void add(const Parameter& p)
